@@ -20,6 +20,12 @@ use vsexp::{Lst, Num, Sexp};
 pub const VALUE: i64 = 42;
 
 pub fn run(case: &Sexp, user_points: bool) -> Sexp {
+    run_opts(case, user_points, false)
+}
+
+/// `fresh`: every poll uses a NEW future and a NEW waker (the task was dropped and re-created, or
+/// migrated to another executor); only the latest waker counts as a wake-up of the task
+pub fn run_opts(case: &Sexp, user_points: bool, fresh: bool) -> Sexp {
     let kinds = case.at(1).nums();
     let sched = case.at(2).nums();
     let k = kinds.len();
@@ -64,7 +70,7 @@ pub fn run(case: &Sexp, user_points: bool) -> Sexp {
         let kind = *kind;
         let results = Arc::clone(&results);
         ctl.spawn(i, move |ctl, me| {
-            let mut fut: Pin<Box<dyn Future<Output = i64> + Send>> = match kind {
+            let make = |d: &ArcAsyncDerived<i64>| -> Pin<Box<dyn Future<Output = i64> + Send>> { match kind {
                 0 => {
                     let d2 = d.clone();
                     Box::pin(async move {
@@ -80,11 +86,18 @@ pub fn run(case: &Sexp, user_points: bool) -> Sexp {
                         *g
                     })
                 }
-            };
-            let (flag, waker) = if user_points { exec::user_waker() } else { exec::flag() };
+            } };
+            let mut fut = make(&d);
+            let (mut flag, mut waker) = if user_points { exec::user_waker() } else { exec::flag() };
             let mut polls = 0;
             loop {
                 polls += 1;
+                if fresh && polls > 1 {
+                    fut = make(&d);
+                    let fw = exec::flag();
+                    flag = fw.0;
+                    waker = fw.1;
+                }
                 match exec::poll_boxed(&mut fut, &waker) {
                     Poll::Ready(v) => {
                         results.lock().unwrap()[me] = (1, v, polls);
